@@ -30,6 +30,114 @@ pub fn mutant(dna: &[u16]) -> Result<(String, Vec<String>), String> {
     Ok((m.to_string(), what))
 }
 
+/// a generated request with macro fragments marked `__ng(..)`; half of them token-mutated like `mutant`
+pub fn grouped_request(dna: &[u16]) -> String {
+    let mut d = Dna::new(dna);
+    let mut cfg = GenCfg::full();
+    cfg.trait_pct = 40;
+    cfg.attr_pct = 55;
+    let b = gen::build(&mut d, &cfg);
+    let mut spec = b.spec;
+    let bits = 1 + d.pick(15) as u8;
+    // a fragment need not be a whole field type or target, and it may hold any type syntax (also what could not stand
+    // there without the invisible group, like `&'static $t` with `$t = dyn A + Sync`)
+    const EXOTIC: [&str; 12] = [
+        "dyn A + Sync", "dyn for<'x> Fn(&'x u8) -> u8 + Send", "impl Fn() -> u8", "[u8]", "fn(u8) -> u8", "(u8, i8)", "!", "<u8 as Tr>::Out", "*const u8", "_",
+        "Self", "&'static mut dyn A",
+    ];
+    let mut exotic: Option<&str> = None;
+    let nf: usize = spec.variants.iter().map(|v| v.fields.len()).sum();
+    if nf > 0 && d.chance(25) {
+        let x = EXOTIC[d.pick(EXOTIC.len())];
+        let src = if d.chance(60) { "&'static ExoticFragment".to_string() } else { "ExoticFragment".to_string() };
+        let k = d.pick(nf);
+        let with_into = d.chance(60) && spec.kind != Kind::Union;
+        let mut i = 0;
+        for v in spec.variants.iter_mut() {
+            for f in v.fields.iter_mut() {
+                if i == k {
+                    f.ty.src = src.clone();
+                    if with_into {
+                        f.attrs.push(FAttr { tr: Tr::Into, into_ty: Some(src.clone()), params: vec![], sp: 0 });
+                    }
+                }
+                i += 1;
+            }
+        }
+        if with_into {
+            spec.traits.push(TAttr { tr: Tr::Into, into_ty: Some(src.clone()), params: vec![], sp: 0 });
+        }
+        exotic = Some(x);
+    }
+    let mut base = spec.render_def_grouped(bits);
+    if let Some(x) = exotic {
+        base = base.replace("__ng(&'static ExoticFragment)", &format!("&'static __ng({x})")).replace("__ng(ExoticFragment)", &format!("__ng({x})")).replace("ExoticFragment", &format!("__ng({x})"));
+    }
+    if d.chance(50) {
+        if let Ok(ts) = base.parse::<proc_macro2::TokenStream>() {
+            return mutate::mutate(ts, &mut d).0.to_string();
+        }
+    }
+    base
+}
+
+/// the same tokens produced by a `macro_rules!` definition, for the real compiler: every `__ng(X)` becomes a fragment
+/// (`ty` if X parses as a type, `expr` otherwise) that the single invocation supplies
+pub fn macro_form(src: &str) -> String {
+    fn walk(ts: proc_macro2::TokenStream, params: &mut Vec<String>, args: &mut Vec<String>) -> String {
+        use proc_macro2::{Delimiter, TokenTree};
+        let mut out = String::new();
+        let mut it = ts.into_iter().peekable();
+        while let Some(tt) = it.next() {
+            match tt {
+                TokenTree::Ident(ref i) if i == "__ng" => {
+                    if let Some(TokenTree::Group(g)) = it.peek() {
+                        if g.delimiter() == Delimiter::Parenthesis {
+                            let inner = g.stream();
+                            let kind = if syn::parse2::<syn::Type>(inner.clone()).is_ok() { "ty" } else { "expr" };
+                            let k = params.len();
+                            params.push(format!("$p{k}:{kind}"));
+                            args.push(inner.to_string());
+                            out.push_str(&format!(" $p{k} "));
+                            it.next();
+                            continue;
+                        }
+                    }
+                    out.push_str("__ng ");
+                },
+                TokenTree::Group(g) => {
+                    let (o, c) = match g.delimiter() {
+                        Delimiter::Parenthesis => ("(", ")"),
+                        Delimiter::Brace => ("{", "}"),
+                        Delimiter::Bracket => ("[", "]"),
+                        Delimiter::None => ("", ""),
+                    };
+                    out.push_str(o);
+                    out.push_str(&walk(g.stream(), params, args));
+                    out.push_str(c);
+                    out.push(' ');
+                },
+                other => {
+                    out.push_str(&other.to_string());
+                    // keep multi-character punctuation together
+                    if let TokenTree::Punct(p) = &other {
+                        if p.spacing() == proc_macro2::Spacing::Joint {
+                            continue;
+                        }
+                    }
+                    out.push(' ');
+                },
+            }
+        }
+        out
+    }
+    let Ok(ts) = src.parse::<proc_macro2::TokenStream>() else { return format!("use educe::Educe;\n#[derive(Educe)]\n{src}\n") };
+    let mut params = Vec::new();
+    let mut args = Vec::new();
+    let body = walk(ts, &mut params, &mut args);
+    format!("use educe::Educe;\nmacro_rules! mk_it {{\n    ({}) => {{\n#[derive(Educe)]\n{body}\n    }};\n}}\nmk_it!({});\n", params.join(", "), args.join(", "))
+}
+
 pub fn eval(dna: &[u16]) -> Res {
     match mutant(dna) {
         Ok((src, what)) => {
@@ -335,6 +443,79 @@ pub fn run(ctx: &Ctx) -> i32 {
             }
         }
         check::clean_work("C17");
+    }
+    // fragment lane: the same kinds of requests as a `macro_rules!` body hands them to the derive - field types, discriminants,
+    // parameter values and Into targets inside invisible None-delimited groups - valid and token-mutated
+    {
+        let n2 = ctx.scale(30000, 300000);
+        let trees2 = check::draw(ctx.seed, 0xC17A, n2, 520);
+        let dnas2: Vec<Vec<u16>> = trees2.iter().map(|t| t.current()).collect();
+        drop(trees2);
+        let srcs2: Vec<String> = dnas2.par_iter().map(|d| grouped_request(d)).collect();
+        let isos2 = engine::expand_isolated("C17-iso-frag", &srcs2, false);
+        let mut cands: Vec<(String, String, Vec<u16>)> = Vec::new();
+        let mut sites: std::collections::BTreeMap<String, usize> = Default::default();
+        for (i, iso) in isos2.into_iter().enumerate() {
+            rep.evaluations += 1;
+            if !srcs2[i].contains("__ng") {
+                rep.count("fragment_lane_without_fragment", 1);
+                continue;
+            }
+            rep.class("request_with_macro_fragments");
+            match iso {
+                engine::Iso::Done(Expansion::Panic(m)) => {
+                    let c = sites.entry(panic_site(&m)).or_insert(0);
+                    *c += 1;
+                    if *c <= 4 {
+                        cands.push((srcs2[i].clone(), m, dnas2[i].clone()));
+                    }
+                },
+                engine::Iso::Done(Expansion::Ok(t)) => {
+                    rep.count("fragment_lane_accepted", 1);
+                    if t == "<empty>" {
+                        rep.violations.push(Failure { msg: "the macro accepts the request and generates nothing".into(), dna: dnas2[i].clone(), variant: "frag-empty-ok".into(), source: srcs2[i].clone(), unit_body: Some(macro_form(&srcs2[i])) });
+                    }
+                },
+                engine::Iso::Done(Expansion::Err(_)) => {
+                    rep.count("fragment_lane_refused", 1);
+                    rep.nontrivial.insert(fnv64(&srcs2[i]));
+                },
+                engine::Iso::Done(Expansion::Unparsable(_)) => rep.count("fragment_lane_not_a_derive_input", 1),
+                engine::Iso::Crashed(how) => {
+                    if cands.len() < 16 {
+                        cands.push((srcs2[i].clone(), format!("the expanding process died: {how}"), dnas2[i].clone()));
+                    }
+                },
+                engine::Iso::Hung(true) => {
+                    if cands.len() < 16 {
+                        cands.push((srcs2[i].clone(), format!("does not terminate: the expanding process used up {} s of CPU time on this request", engine::CHILD_CPU_LIMIT), dnas2[i].clone()));
+                    }
+                },
+                engine::Iso::Hung(false) => rep.inconclusive.push("an expansion of the fragment lane gave no answer within the wall-clock watchdog".into()),
+            }
+        }
+        rep.extra.insert("fragment_lane_panic_sites".into(), json!(sites));
+        if !cands.is_empty() {
+            // confirmation with the real compiler: the same tokens, produced by a macro_rules! definition
+            let units: Vec<Unit> = cands.iter().map(|(src, _, _)| Unit { body: macro_form(src), has_run: false }).collect();
+            let (outs, _) = check::eval_units("C17-frag", &units, &so, 1, false);
+            for (k, o) in outs.iter().enumerate() {
+                let (src, m, dna) = &cands[k];
+                rep.count("panic_candidates_confirmed_through_rustc", 1);
+                if o.proc_macro_panic || o.died.is_some() {
+                    rep.violations.push(Failure {
+                        msg: format!("the shipping macro does not end with items or a diagnostic on a definition produced by macro_rules! (in-process: {m}); rustc: {:?} {:?}", o.compile_errors.iter().take(2).collect::<Vec<_>>(), o.died),
+                        dna: dna.clone(),
+                        variant: "frag-panic".into(),
+                        source: src.clone(),
+                        unit_body: Some(units[k].body.clone()),
+                    });
+                } else {
+                    rep.count("fallback_only_panic(not reported)", 1);
+                }
+            }
+            check::clean_work("C17-frag");
+        }
     }
     // nesting ladder through rustc child processes
     let depths: &[usize] = if ctx.thorough() { &[16, 32, 64, 128, 256, 512, 1024, 2048, 4096] } else { &[16, 64, 256, 1024, 4096] };
